@@ -5,8 +5,9 @@ before in the same process.  Every case therefore runs in its own child whose ra
 (determinism), and cases flagged "exec" run the second time in a newly exec'ed interpreter to confirm that
 the forked children see exactly what a fresh process sees.
 
-Worker protocol: `python -c <bootstrap> <json case>` prints one JSON line
-  {"err": max|A_fast - A_gauss|, "amax": max|A_gauss|, "stop": <ACA stop reason>, "sha": <hash of A_fast>, "shape": [..]}
+One case = (form, geometry, space, list of tolerances); the child resets rand() with srand(1) before every fast assembly.
+Worker protocol: `python -c <bootstrap> <json case>` prints one JSON line with a list (one entry per tolerance) of
+  {"tol":.., "err": max|A_fast - A_gauss|, "amax": max|A_gauss|, "stop": <ACA stop reason>, "sha": <hash of A_fast>, "shape": [..]}
 """
 import hashlib
 import io
@@ -62,9 +63,15 @@ def stop_reason(log):
     return reason
 
 
+def _srand1():
+    import ctypes
+    ctypes.CDLL(None).srand(1)
+
+
 def compute(case):
-    """assemble with the Gauss assembler and with the fast assembler in THIS process; summary dict"""
-    out = {}
+    """assemble with the Gauss assembler and, for every requested tolerance, with the fast assembler in THIS process;
+    the C rand() state is reset to the pristine one (srand(1)) before every fast assembly; list of summary dicts"""
+    outs = []
     try:
         import pyiga
         from pyiga import assemble
@@ -73,28 +80,34 @@ def compute(case):
         d = len(kvs)
         geo = make_fast_geo(case["geo"], d)
         ref = getattr(assemble, case["which"])(kvs, geo)
-        buf = io.StringIO()
-        old = sys.stdout
-        sys.stdout = buf
-        try:
-            A = getattr(assemble, case["which"] + "_fast")(kvs, geo, tol=case["tol"], verbose=1)
-        finally:
-            sys.stdout = old
-        A = A.tocsr()
-        A.sum_duplicates()
-        A.sort_indices()
-        h = hashlib.sha256()
-        h.update(np.asarray(A.indptr, dtype=np.int64).tobytes())
-        h.update(np.asarray(A.indices, dtype=np.int64).tobytes())
-        h.update(np.asarray(A.data, dtype=np.float64).tobytes())
-        out = {"shape": list(A.shape), "refshape": list(ref.shape), "sha": h.hexdigest()[:16],
-               "stop": stop_reason(buf.getvalue()), "finite": bool(np.all(np.isfinite(A.data)))}
-        if A.shape == ref.shape:
-            out["err"] = float(abs(A - ref).max())
-            out["amax"] = float(abs(ref).max())
     except Exception as e:
-        out = {"exception": type(e).__name__, "repr": repr(e)}
-    return out
+        return [{"exception": type(e).__name__, "repr": "Gauss assembler / setup: " + repr(e)}]
+    for tol in case["tols"]:
+        try:
+            buf = io.StringIO()
+            old = sys.stdout
+            sys.stdout = buf
+            try:
+                _srand1()
+                A = getattr(assemble, case["which"] + "_fast")(kvs, geo, tol=tol, verbose=1)
+            finally:
+                sys.stdout = old
+            A = A.tocsr()
+            A.sum_duplicates()
+            A.sort_indices()
+            h = hashlib.sha256()
+            h.update(np.asarray(A.indptr, dtype=np.int64).tobytes())
+            h.update(np.asarray(A.indices, dtype=np.int64).tobytes())
+            h.update(np.asarray(A.data, dtype=np.float64).tobytes())
+            out = {"tol": tol, "shape": list(A.shape), "refshape": list(ref.shape), "sha": h.hexdigest()[:16],
+                   "stop": stop_reason(buf.getvalue()), "finite": bool(np.all(np.isfinite(A.data)))}
+            if A.shape == ref.shape:
+                out["err"] = float(abs(A - ref).max())
+                out["amax"] = float(abs(ref).max())
+        except Exception as e:
+            out = {"tol": tol, "exception": type(e).__name__, "repr": repr(e)}
+        outs.append(out)
+    return outs
 
 
 def worker_main(arg):
@@ -131,8 +144,6 @@ def run_fork(case):
         code = 0
         try:
             os.close(r)
-            import ctypes
-            ctypes.CDLL(None).srand(1)
             data = json.dumps(compute(case)).encode()
             off = 0
             while off < len(data):
@@ -187,39 +198,50 @@ def run_child(case):
 
 def check_fast(case, stats=None):
     probs = []
-    which, tol = case["which"], case["tol"]
+    which = case["which"]
     part = "fast:" + which
-    tag = "%s_fast(axes=%s, geo=%s, tol=%g)" % (which, case["axes"], case["geo"], tol)
+    tag0 = "%s_fast(axes=%s, geo=%s" % (which, case["axes"], case["geo"])
     r1 = run_child(case)
     r2 = run_exec(case) if case.get("exec") else run_child(case)
     for r in (r1, r2):
-        if r.get("timeout"):
-            probs.append((part + ":timeout", "%s did not finish within %d s" % (tag, TIMEOUT)))
-        elif "signal" in r:
-            try:
-                nm = signal.Signals(r["signal"]).name
-            except Exception:
-                nm = str(r["signal"])
-            probs.append((part + ":crash:" + nm, "%s killed the interpreter (%s)" % (tag, nm)))
-        elif "exception" in r:
-            probs.append((part + ":exception:" + r["exception"], "%s raised %s" % (tag, r["repr"])))
+        if isinstance(r, dict):       # the child itself failed
+            if r.get("timeout"):
+                probs.append((part + ":timeout", "%s, tols=%s) did not finish within %d s" % (tag0, case["tols"], TIMEOUT)))
+            elif "signal" in r:
+                try:
+                    nm = signal.Signals(r["signal"]).name
+                except Exception:
+                    nm = str(r["signal"])
+                probs.append((part + ":crash:" + nm, "%s, tols=%s) killed the interpreter (%s)" % (tag0, case["tols"], nm)))
+            else:
+                probs.append((part + ":exception:" + r.get("exception", "?"), "%s, tols=%s) raised %s" % (tag0, case["tols"], r.get("repr"))))
     if probs:
         return probs[:1], 2
     if r1 != r2:
-        probs.append((part + ":nondeterministic", "%s: two processes with pristine rand() state (%s) give different results: %s vs %s"
-                      % (tag, "forked child with srand(1) vs new interpreter" if case.get("exec") else "two forked children with srand(1)", r1, r2)))
-    r = r1
-    if r["shape"] != r["refshape"]:
-        probs.append((part + ":shape", "%s: shape %s, Gauss assembler %s" % (tag, r["shape"], r["refshape"])))
-        return probs, 2
-    if not r["finite"]:
-        probs.append((part + ":nonfinite", "%s: non-finite entries" % tag))
-    bound = FACTOR * tol * max(1.0, r["amax"])
-    if stats is not None:
-        k = "fast:err/tol:%s:%s" % (which, r["stop"])
-        stats[k] = max(stats.get(k, 0.0), r["err"] / (tol * max(1.0, r["amax"])))
-    if not (r["err"] <= bound):
-        probs.append(("%s:inaccurate:%s" % (part, r["stop"]),
-                      "%s: max entrywise deviation from the Gauss assembler %.3g > %g * tol * max(1, max|A|) = %.3g "
-                      "(max|A| = %.3g, ACA stop reason: %s)" % (tag, r["err"], FACTOR, bound, r["amax"], r["stop"])))
-    return probs, 2
+        probs.append((part + ":nondeterministic", "%s): two processes with pristine rand() state (%s) give different results: %s vs %s"
+                      % (tag0, "forked child with srand(1) vs new interpreter" if case.get("exec") else "two forked children with srand(1)", r1, r2)))
+    for r in r1:
+        tol = r.get("tol")
+        tag = "%s, tol=%s)" % (tag0, tol)
+        if "exception" in r:
+            probs.append((part + ":exception:" + r["exception"], "%s raised %s" % (tag, r["repr"])))
+            continue
+        if r["shape"] != r["refshape"]:
+            probs.append((part + ":shape", "%s: shape %s, Gauss assembler %s" % (tag, r["shape"], r["refshape"])))
+            continue
+        if not r["finite"]:
+            probs.append((part + ":nonfinite", "%s: non-finite entries" % tag))
+        bound = FACTOR * tol * max(1.0, r["amax"])
+        if stats is not None:
+            k = "fast:err/tol:%s:%s" % (which, r["stop"])
+            stats[k] = max(stats.get(k, 0.0), r["err"] / (tol * max(1.0, r["amax"])))
+        if not (r["err"] <= bound):
+            probs.append(("%s:inaccurate:%s" % (part, r["stop"]),
+                          "%s: max entrywise deviation from the Gauss assembler %.3g > %g * tol * max(1, max|A|) = %.3g "
+                          "(max|A| = %.3g, ACA stop reason: %s)" % (tag, r["err"], FACTOR, bound, r["amax"], r["stop"])))
+    seen, out = set(), []
+    for k, m in probs:
+        if k not in seen:
+            seen.add(k)
+            out.append((k, m))
+    return out, 2 * len(case["tols"])
